@@ -26,8 +26,10 @@ def suite(wt):
     return [t for t in base if res.get(t) != 'pass']
 
 def main():
-    pid, d = sys.argv[1], sys.argv[2].rstrip('/')
-    others = sys.argv[3:]
+    args = [a for a in sys.argv[1:] if not a.startswith('--')]
+    overlay_mode = '--overlay' in sys.argv   # run our checks through VERIF_EXTRA_OVERLAY instead of patching /repo
+    pid, d = args[0], args[1].rstrip('/')
+    others = args[2:]
     meta = json.load(open(d + '/meta.json'))
     wt = '/tmp/evalwt_%s_%d' % (pid, os.getpid())
     sh('git -C /repo worktree add -q --detach %s HEAD' % wt)
@@ -44,7 +46,7 @@ def main():
         # demo: copy *_test.go files next to where their header says; default = the package named in demo_cmd
         cmd = meta.get('demo_cmd', '')
         m = re.search(r'\./(internal/[\w/]+|cmd/[\w/-]+)/?', cmd)
-        pkgdir = m.group(1) if m else None
+        pkgdir = (meta.get('demo_package_dir') or '').strip('./') or (m.group(1) if m else None)
         demos = [f for f in glob.glob(d + '/*.go')]
         for f in demos:
             if pkgdir:
@@ -64,18 +66,35 @@ def main():
         rc2, o2 = sh(cmd_local, cwd=wt, timeout=1800)
         out['demo_without_rc'] = rc2
         out['confirmed'] = out['patch_applies'] and out['builds'] and not notpass and rc1 != 0 and rc2 == 0
+        checks = {}
+        if overlay_mode:
+            # 2'. our checks against the change through an overlay of the changed files (nothing written to /repo)
+            for f in demos:
+                if pkgdir:
+                    try: os.remove(os.path.join(wt, pkgdir, os.path.basename(f)))
+                    except OSError: pass
+            sh('git apply %s/patch.diff' % d, cwd=wt)
+            rc, o = sh('git status --porcelain', cwd=wt)
+            changed = [l[3:].strip() for l in o.splitlines() if l.strip()]
+            ov = dict(Replace={('/repo/' + f): (wt + '/' + f) for f in changed if f.endswith('.go')})
+            ovp = wt + '/.verif_overlay.json'
+            json.dump(ov, open(ovp, 'w'))
+            for c in [pid] + others:
+                rc, o = sh('python3 tools/check.py %s --tier quick' % c, cwd='/verif', timeout=3000, env=dict(VERIF_EXTRA_OVERLAY=ovp))
+                lines = [l for l in o.splitlines() if l.startswith('VIOLATION') or l.startswith('# ') or l.startswith('KNOWN')]
+                checks[c] = dict(rc=rc, lines=[l[:400] for l in lines[:6]])
     finally:
         sh('git -C /repo worktree remove --force %s' % wt)
-    # 2. our checks against the mutant, on /repo itself
-    rc, o = sh('git -C /repo apply %s/patch.diff' % d)
-    checks = {}
-    try:
-        for c in [pid] + others:
-            rc, o = sh('python3 tools/check.py %s --tier quick' % c, cwd='/verif', timeout=3000)
-            lines = [l for l in o.splitlines() if l.startswith('VIOLATION') or l.startswith('# ') or l.startswith('KNOWN')]
-            checks[c] = dict(rc=rc, lines=[l[:400] for l in lines[:6]])
-    finally:
-        sh('git -C /repo checkout -- .')
+    if not overlay_mode:
+        # 2. our checks against the mutant, on /repo itself
+        rc, o = sh('git -C /repo apply %s/patch.diff' % d)
+        try:
+            for c in [pid] + others:
+                rc, o = sh('python3 tools/check.py %s --tier quick' % c, cwd='/verif', timeout=3000)
+                lines = [l for l in o.splitlines() if l.startswith('VIOLATION') or l.startswith('# ') or l.startswith('KNOWN')]
+                checks[c] = dict(rc=rc, lines=[l[:400] for l in lines[:6]])
+        finally:
+            sh('git -C /repo checkout -- .')
     out['checks'] = checks
     out['caught_by'] = [c for c, v in checks.items() if v['rc'] != 0 and any(l.startswith('VIOLATION') for l in v['lines'])]
     print(json.dumps(out, indent=1))
